@@ -971,11 +971,9 @@ def pv_is_current(name):
 VALID_ADDRS = ["AAAAAAAAAAAAAAAAAAAAAAAAAAAAAAAAAAAAAAAAAAAAAAAAAAAAY5HFKQ", "AAAQEAYEAUDAOCAJBIFQYDIOB4IBCEQTCQKRMFYYDENBWHA5DYP7MUPJQE"]
 
 
-def bad_checksum_addr_class(spec, x):
-    """class predicate of the finding addr-bad-checksum-assemble-crash"""
-    inner = [f[1] for f in ((x.get("tb") or {}).get("inner") or [])]
-    return x.get("exc") == "WrongChecksumError" and "extractAddrValue" in inner and \
-        any(c_[0] == "addr" and c_[1] not in VALID_ADDRS for _, c_ in spec)
+def has_undecodable_addr(spec):
+    """an Addr literal with a wrong checksum: accepted by Addr() (C13's open finding), refused by constant assembly with TealInputError"""
+    return any(c_[0] == "addr" and c_[1] not in VALID_ADDRS for _, c_ in spec)
 
 
 def gen_const_spec(rng, version=6):
@@ -1081,16 +1079,13 @@ def stream_consts(run, thorough):
             want = "ok" if base["outcome"] == "ok" else base.get("exc", base["outcome"])
             if want == "ok" and version < 3:
                 want = "TealInternalError"
+            elif want == "ok" and has_undecodable_addr(spec):
+                want = "TealInputError"          # documented rejection since 104f066: the address cannot be decoded into a constant
             stats[api + ":" + cls] = stats.get(api + ":" + cls, 0) + 1
             if x["outcome"] in ("crash", "timeout") or base["outcome"] in ("crash", "timeout") or cls != want:
                 kind = "crash" if x["outcome"] in ("crash", "timeout") or base["outcome"] in ("crash", "timeout") else "acceptance"
                 bad.setdefault((kind, cls, want), []).append((spec, version, app, api, x, base))
     for (kind, cls, want), lst in list(bad.items())[:4]:
-        if kind == "crash" and all(bad_checksum_addr_class(t[0], t[4]) for t in lst):
-            f = ck.match_known(lambda f: f["id"] == "addr-bad-checksum-assemble-crash")
-            if f is not None:
-                ck.known(f["id"], f["what"])
-                continue
         spec, version, app, api, x, base = min(lst, key=lambda t: len(t[0]))
 
         def still(sp):
@@ -1219,7 +1214,7 @@ def replay(path):
         print("with constant assembly   :", json.dumps({k: v for k, v in x.items() if k != "value"}, default=repr)[:600])
         print("without constant assembly:", json.dumps({k: v for k, v in b_.items() if k != "value"}, default=repr)[:300])
         cls = lambda y: "ok" if y["outcome"] == "ok" else y.get("exc", y["outcome"])
-        want = "TealInternalError" if (cls(b_) == "ok" and data["version"] < 3) else cls(b_)
+        want = "TealInternalError" if (cls(b_) == "ok" and data["version"] < 3) else ("TealInputError" if (cls(b_) == "ok" and has_undecodable_addr(data["const_spec"])) else cls(b_))
         bad = x["outcome"] in ("crash", "timeout") or cls(x) != want
         print("still failing" if bad else "no longer failing")
         return 1 if bad else 0
@@ -1763,8 +1758,13 @@ def replay_known(ck, run, pt, wres, cx):
         if still and f.get("status") == "open":
             ck.known(fid, f["what"])
         elif still and f.get("status") != "open" and "recipe" not in w:
-            ck.violation("a finding recorded as %s fails again: %s (%s)" % (f.get("status"), fid, detail), {"kind": "regression", "finding": fid, "observed": detail},
-                         no_failing_input=("recipe" not in w and "family" not in w))
+            payload = {"kind": "regression", "finding": fid, "observed": detail}
+            if "const_spec" in w:
+                payload.update({"kind": "crash", "const_spec": w["const_spec"], "version": w.get("version", 6), "mode": w.get("mode", "app"), "api": w.get("api", "compileTeal")})
+            elif "family" in w:
+                payload["job"] = {"family": w["family"], "n": w["n"], "version": w.get("version", 6)}
+            ck.violation("a finding recorded as %s fails again: %s (%s)" % (f.get("status"), fid, detail), payload,
+                         no_failing_input=("const_spec" not in w and "family" not in w))
     ck.coverage["known_findings_replayed"] = seen
 
 
